@@ -13,6 +13,9 @@ use crate::worlds::store::StoreWorld;
 use crate::worlds::codec::CodecWorld;
 use crate::worlds::chan::ChanWorld;
 use crate::worlds::recon::ReconWorld;
+use crate::worlds::links::LinksWorld;
+use crate::worlds::uplinks::UplinksWorld;
+use crate::worlds::queues::QueuesWorld;
 use crate::worlds::handlers::HandlersWorld;
 
 fn agent(focus: &'static str, name: &'static str) -> Arc<dyn World> {
@@ -20,7 +23,7 @@ fn agent(focus: &'static str, name: &'static str) -> Arc<dyn World> {
 }
 
 pub fn world_names() -> Vec<&'static str> {
-    vec!["agent-c01", "agent-c02", "agent-c03", "agent-c04", "agent-c05", "agent-c14", "agent-c04f", "agent-c20", "agent-mix", "dlrt-value", "dlrt-map", "dltask-value", "dltask-map", "hosted-value", "hosted-map", "vote", "store-mem", "store-rocks", "codec", "chan", "recon", "handlers"]
+    vec!["agent-c01", "agent-c02", "agent-c03", "agent-c04", "agent-c05", "agent-c14", "agent-c04f", "agent-c20", "agent-mix", "dlrt-value", "dlrt-map", "dltask-value", "dltask-map", "hosted-value", "hosted-map", "vote", "store-mem", "store-rocks", "codec", "chan", "recon", "handlers", "links", "uplinks", "queues"]
 }
 
 pub fn world_by_name(name: &str) -> Option<Arc<dyn World>> {
@@ -44,6 +47,9 @@ pub fn world_by_name(name: &str) -> Option<Arc<dyn World>> {
         "codec" => Arc::new(CodecWorld),
         "chan" => Arc::new(ChanWorld),
         "recon" => Arc::new(ReconWorld),
+        "links" => Arc::new(LinksWorld),
+        "uplinks" => Arc::new(UplinksWorld),
+        "queues" => Arc::new(QueuesWorld),
         "handlers" => Arc::new(HandlersWorld),
         "store-mem" => Arc::new(StoreWorld { kind: "mem", name: "store-mem" }),
         "store-rocks" => Arc::new(StoreWorld { kind: "rocks", name: "store-rocks" }),
@@ -96,11 +102,11 @@ pub fn spec_for(property: &str) -> Option<CheckSpec> {
     let a = || AGENT_ASSUMPTIONS.iter().map(|s| s.to_string()).collect::<Vec<_>>();
     Some(match property {
         "C01" => CheckSpec { property: "C01", level: "exploration", parts: vec![part("agent-c01", 3000, 300_000), part("agent-mix", 1000, 100_000)], assumptions: a() },
-        "C02" => CheckSpec { property: "C02", level: "exploration", parts: vec![part("agent-c02", 3000, 300_000), part("agent-mix", 1000, 100_000)], assumptions: a() },
-        "C03" => CheckSpec { property: "C03", level: "exploration", parts: vec![part("agent-c03", 3000, 300_000), part("agent-mix", 1000, 100_000)], assumptions: a() },
-        "C04" => CheckSpec { property: "C04", level: "exploration", parts: vec![part("agent-c04", 3000, 300_000), part("agent-c04f", 2000, 200_000), part("agent-mix", 1000, 100_000)], assumptions: a() },
+        "C02" => CheckSpec { property: "C02", level: "exploration", parts: vec![part("agent-c02", 3000, 300_000), part("agent-mix", 1000, 100_000), part("queues", 3000, 300_000)], assumptions: a() },
+        "C03" => CheckSpec { property: "C03", level: "exploration", parts: vec![part("agent-c03", 3000, 300_000), part("agent-mix", 1000, 100_000), part("queues", 3000, 300_000)], assumptions: a() },
+        "C04" => CheckSpec { property: "C04", level: "exploration", parts: vec![part("agent-c04", 3000, 300_000), part("agent-c04f", 2000, 200_000), part("agent-mix", 1000, 100_000), part("uplinks", 3000, 300_000)], assumptions: a() },
         "C05" => CheckSpec { property: "C05", level: "fault_enumeration", parts: vec![part("agent-c05", 3000, 300_000), part("agent-mix", 1000, 100_000)], assumptions: a() },
-        "C20" => CheckSpec { property: "C20", level: "exploration", parts: vec![part("agent-c20", 3000, 300_000), part("agent-c04f", 1000, 100_000), part("agent-mix", 1000, 100_000)], assumptions: a() },
+        "C20" => CheckSpec { property: "C20", level: "exploration", parts: vec![part("agent-c20", 3000, 300_000), part("agent-c04f", 1000, 100_000), part("agent-mix", 1000, 100_000), part("links", 3000, 300_000)], assumptions: a() },
         "C06" => CheckSpec {
             property: "C06",
             level: "exploration",
